@@ -131,11 +131,9 @@ def Mem.growHeapBy (m : Mem) (spReg amount : Nat) : Except Err Mem :=
 def Mem.verify (m : Mem) (addr count : Nat) : Except Err (Nat × Nat) :=
   if addr > M then .error .MemoryOverflow
   else if count > M then .error .MemoryOverflow
-  else
-    let e := addr + count
-    if e > M then .error .MemoryOverflow
-    else if e ≤ m.stackLen ∨ addr ≥ m.hp then .ok (addr, e)
-    else .error .UninitalizedMemoryAccess
+  else if addr + count > M then .error .MemoryOverflow              -- `end = start.saturating_add(len)`
+  else if addr + count ≤ m.stackLen ∨ addr ≥ m.hp then .ok (addr, addr + count)
+  else .error .UninitalizedMemoryAccess
 
 /-- `read(addr, count)` -/
 def Mem.read (m : Mem) (addr count : Nat) : Except Err Bytes :=
